@@ -179,6 +179,12 @@ def generate(rng, tier, cls):
     p_illegal = rng.choice([0.0, 0.1, 0.2, 0.4])
     p_bad = rng.choice([0.0, 0.1, 0.25, 0.5])
 
+    if rng.chance(0.004):
+        # a very long history (several thousand sections written)
+        n = rng.randint(1100, 3300)
+        p_illegal = rng.choice([0.1, 0.3])
+        p_bad = 0.05
+
     for _ in range(n):
         legal_calls = [c for c in CALLS if m.legal(m.would_write(c))]
 
